@@ -166,7 +166,7 @@ def gen(rng, tier, shape=None):
                 ov = s["old"][1][0] if s.get("old") and s["old"][0] == "leaf" else 0
                 if ov is None or isinstance(ov, str) != isinstance(x, str):
                     op = "eq"
-            if op in ("eq", "in") and role != "dict" and rng.random() < 0.04:
+            if op in ("eq", "in") and rng.random() < 0.04:
                 x = (NC, ncs)
                 ncs += 1
             evs.append(["op", k, key, op, x])
@@ -175,7 +175,8 @@ def gen(rng, tier, shape=None):
     if rng.random() < 0.25:
         flags = []
     approved = sorted(c for c in common.CATS if rng.random() < 0.5) if rng.random() < 0.3 else list(flags)
-    return {"sites": sites, "tests": tests, "flags": flags, "approved": approved, "ncs": ncs}
+    return {"sites": sites, "tests": tests, "flags": flags, "approved": approved, "ncs": ncs,
+            "orders": ncs == 0 and rng.random() < (0.15 if tier == "quick" else 0.25)}
 
 
 def arg_src(old):
@@ -331,9 +332,40 @@ def run_impl(case):
     except SyntaxError as e:
         finals = {"syntax_error": str(e)}
     R = obs["R"][0][1] if obs["R"] else None
-    return {"R": R, "tests": obs["tests"], "sites": sites, "finals": finals, "src": src, "after": after,
+    orders = None
+    if case.get("orders") and not obs["collect_errors"] and not obs["apply_error"]:
+        orders = run_orders(src, sorted({c for s_ in obs["sites"] for c in s_["cats"]}))
+    return {"orders": orders, "R": R, "tests": obs["tests"], "sites": sites, "finals": finals, "src": src, "after": after,
             "collect_errors": obs["collect_errors"], "apply_error": obs["apply_error"],
             "import_error": obs["import_error"], "problems": obs["problems"]}
+
+
+def run_orders(src, pending):
+    """C09: approve the pending categories one at a time in every order, and all at once"""
+    import itertools
+    from .. import impl_inline
+    if len(pending) < 2 or len(pending) > 3:
+        return None
+
+    def final_dump(text):
+        try:
+            return [ast.dump(c[3]) for c in impl_inline.snapshot_args(text)]
+        except SyntaxError as e:
+            return ["syntax error: " + str(e)]
+    out = {}
+    r = impl_inline.run_program({"test_case.py": src}, pending, pending)
+    out["together"] = final_dump(r["files_after"].get("test_case.py", "")) if not (r["apply_error"] or r["collect_errors"]) else ["error", r["apply_error"], r["collect_errors"]]
+    for perm in itertools.permutations(pending):
+        text = src
+        err = None
+        for c in perm:
+            r = impl_inline.run_program({"test_case.py": text}, [c], [c])
+            if r["apply_error"] or r["collect_errors"] or r["import_error"]:
+                err = ["error", r["apply_error"], r["collect_errors"], r["import_error"]]
+                break
+            text = r["files_after"].get("test_case.py", "")
+        out[",".join(perm)] = err or final_dump(text)
+    return out
 
 
 # ------------------------------------------------------------------ comparison model <-> implementation
@@ -548,6 +580,34 @@ def oracle(case, obs):
                                   for ev in case["tests"][t])
             if not touched_missing:
                 fails.append(("C07", "no_false_failure", f"test_{t}: every snapshot holds but counters are ({info['missing']},{info['incorrect']})"))
+
+    # ---- C09: every order of approving the pending categories ends in the same program
+    od = obs.get("orders")
+    if od:
+        ref = od["together"]
+        for k, v in od.items():
+            if v != ref:
+                fails.append(("C09", "order_independent", f"approving {k} one at a time gives {v}, all at once gives {ref}"))
+                break
+    # ---- C05: keys of a sub-snapshot dict: trim only removes keys that were never accessed
+    if not (obs["collect_errors"] or obs["apply_error"]) and isinstance(obs["finals"], dict) and "syntax_error" not in obs["finals"]:
+        for k, site in enumerate(sites):
+            if site["role"] != "dict" or not site["old"]:
+                continue
+            evs = [ev for evs_ in case["tests"] for ev in evs_ if ev[1] == k]
+            if not evs or any(ev[0] == "op" and ev[2] is None for ev in evs):
+                continue          # never used, or used with another operation first (TypeError paths)
+            accessed = {ev[2] for ev in evs}
+            old_keys = [e[0] for e in site["old"][1]]
+            cats = set(obs["sites"].get(k, {}).get("cats", []))
+            fin = _unsx(obs["finals"].get(k))
+            never = [kk for kk in old_keys if kk not in accessed]
+            if never and "trim" not in cats:
+                fails.append(("C05", "trim_reported_for_unaccessed_key", f"site {k}: keys {never} were never accessed, categories {sorted(cats)}"))
+            if isinstance(fin, dict) and "trim" in approved:
+                lost = [kk for kk in old_keys if kk in accessed and kk not in fin]
+                if lost:
+                    fails.append(("C05", "trim_keeps_accessed_keys", f"site {k}: accessed keys {lost} were removed by trim: {fin}"))
 
     # ---- value-level clauses per site (C01 create, C05 categories, C14 aggregation, C17 clone)
     if obs["collect_errors"] or obs["apply_error"] or not isinstance(obs["finals"], dict) or "syntax_error" in obs["finals"]:
